@@ -17,6 +17,7 @@ RULE = (
     "tawazi and nothing in flight (or nodes in flight that it never waits for) is a hang with structural witness - a "
     "bare timeout is only 'inconclusive'; blocking waits <= 2*pooled+2; on normal return every selected active site "
     "ran. non-trivial = >= 2 pooled nodes and >= 1 of {failing, deactivated, sequential, mixed resources}."
+    " Round 8-10 additions: very wide cases (33-48 independent pooled nodes) with the blocked-before-entry witness; one setup function used at two call sites; environment axes."
 )
 ASSUMPTIONS = [
     "bounded liveness: 'terminates' = returns within a bounded number of scheduler wait steps under every generated completion order",
